@@ -61,4 +61,13 @@ if rep.get("out"):
 if rep.get("err"):
     sys.stderr.write(rep["err"])
     sys.stderr.flush()
+if rep.get("rc", 0) < 0:
+    # the job does not exit: it is killed by a signal (out of memory, a user's kill); its real status is "signal n"
+    import signal
+
+    signal.signal(-rep["rc"], signal.SIG_DFL) if -rep["rc"] not in (9, 19) else None
+    os.kill(os.getpid(), -rep["rc"])
+    import time
+
+    time.sleep(5)
 os._exit(rep.get("rc", 0))
